@@ -12,13 +12,14 @@ HBIN = os.path.join(TARGET, "debug", "verif-harness")
 RUNNER = os.path.join(ML, "runner")
 
 TRUSTED_BASE = [
-    "Coq 8.16.1 kernel incl. its bytecode VM (vm_compute in the in-Coq case evaluation and finite sweeps); no native_compute",
-    "axioms: none (every Print Assumptions reports 'Closed under the global context')",
-    "tools/gen_tables.py: translator for enum/constant tables of the Rust sources into Model/Generated.v",
-    "extraction: Require Extraction + ExtrOcamlBasic (Extract Inductive for bool, option, unit, list, prod, sumbool; no Extract Constant), OCaml 4.13.1, runner/runner.ml glue (hex/decimal parsing, Obj.magic int<->byte self-checked at start-up)",
-    "correspondence: Rust harness (generators, canonicalisation, seq connection emulation) — differential testing, bounds the assurance",
-    "modelled, not verified: DashMap, bytes::BytesMut, tokio, kernel TCP, clap/byte-unit parsing, SmallRng (arbitrary oracle), str::parse::<u64> (restated as parse_u64)",
-    "model assumptions: clock < 2^63 and value lengths < 2^32-300 (the checked additions on them are modelled unbounded)",
+    "Coq 8.16.1 kernel incl. its bytecode VM (vm_compute in the in-Coq case evaluation, refutation witnesses and finite sweeps); no native_compute",
+    "axioms: none (every Print Assumptions reports 'Closed under the global context'; standard library only: List, NArith, ZArith, Lia, Bool, Byte, PeanoNat, Zify*)",
+    "tools/gen_tables.py: translator of the enum/constant tables and of the decoder's opcode dispatch (the match in parse_request) of the Rust sources into Model/Generated.v",
+    "extraction: Require Extraction + ExtrOcamlBasic (Extract Inductive for bool, option, unit, list, prod, sumbool; no Extract Constant), OCaml 4.13.1, runner/runner.ml glue (hex/decimal parsing, Obj.magic int<->byte self-checked at start-up); the glue is cross-checked by evaluating a sample of every kind of case inside Coq",
+    "correspondence: Rust harness (generators, canonicalisation, seq connection emulation, schedulers, logging Cache interposers Spy/ScanSpy/OuterSpy, timed probes) — differential testing, bounds the assurance",
+    "hooks in /repo under cfg(memcrs_verif) (usage accessor, read begin/end + sizes, TracedMap yields, counter yields, per-connection write count): assumed to observe without changing behaviour",
+    "modelled, not verified: DashMap (per-call atomicity; len and scans as atomic snapshots in the concurrent policy model), bytes::BytesMut, tokio, kernel TCP, clap/byte-unit parsing, SmallRng and map iteration order (arbitrary oracle), str::parse::<u64> (restated as parse_u64)",
+    "model assumptions: clock < 2^63 and constant inside a concurrent window; value lengths < 2^32-300; stored bytes far below 2^64 (the policy's usage counter is a mathematical integer in the concurrent model: proved never negative, assumed < 2^64); fewer than 2^64 stores; the eviction loop is fuel-bounded in the concurrent model",
 ]
 
 
@@ -116,7 +117,7 @@ def theorem_names(prop):
     return re.findall(r"^\s*Theorem\s+([A-Za-z0-9_']+)", txt, re.M)
 
 
-def check_proofs(prop, timeout=900):
+def check_proofs(prop, timeout=900, tier="quick"):
     """make the property's theorem file; returns dict with ok/log/theorems/assumptions"""
     res = {"ok": False, "log": "", "theorems": [], "closed": 0, "axioms": []}
     ok, out = ensure_makefile()
@@ -140,6 +141,15 @@ def check_proofs(prop, timeout=900):
     src = strip_comments(open(os.path.join(COQ, "Props", prop + ".v")).read())
     n_print = len(re.findall(r"Print Assumptions", src))
     res["ok"] = (len(names) > 0 and n_print >= len(names) and res["closed"] == n_print and not axioms)
+    if res["ok"] and tier == "thorough":
+        # the independent checker over the compiled property file and everything it depends on
+        rc, out2 = sh("coqchk -o -silent -Q . MC MC.Props.%s" % prop, cwd=COQ, timeout=timeout)
+        res["log"] += out2[-1500:]
+        chk_ok = (rc == 0 and re.search(r"Axioms:\s*<none>", out2) is not None
+                  and "type-in-type: <none>" in out2 and "unsafe (co)fixpoints: <none>" in out2
+                  and "positivity is assumed: <none>" in out2)
+        res["coqchk"] = chk_ok
+        res["ok"] = chk_ok
     if not res["ok"]:
         res["log"] += "\n[theorems=%d print_assumptions=%d closed=%d axioms=%r]" % (len(names), n_print, res["closed"], axioms)
     return res
